@@ -116,6 +116,5 @@ def build(manifest):
                 assumptions=['C12: rewrite D15 — `for (i, chunk) in chunks.iter().enumerate()` is replaced by the index loop it stands for '
                              '(Enumerate<slice::Iter> yields (0, &chunks[0]), (1, &chunks[1]), ...)',
                              'C12: MessageChunk::chunk_info is a deterministic function of the chunk (ChunkInfo::new: stream decoding)',
-                             'C12: both transports pass last_received_sequence_number + 1 as starting number and store the result '
-                             '(turn_received_chunks_into_message, two lines each, behind the transport locks: not under contract) and '
-                             'call validate_chunks with at least one chunk'])
+                             'C12: both transports call validate_chunks with at least one chunk (the chunks of a completed message); how the server '
+                             'transport computes the starting number and stores the result is under contract in unit c12_transport'])
